@@ -125,6 +125,12 @@ HARNESSES = [
          encodes=["tinylfu_cached::cache::cached::CacheD::{delete,get,get_ref,put_with_weight,total_weight_used}", "Store::{mark_deleted,delete}", "CommandExecutor::{send,spin (worker closure),delete}", "AdmissionPolicy::delete", "CacheWeight::delete", "TTLTicker::delete", "CommandAcknowledgementHandle::{done,poll}"]),
     dict(name="c07_put_while_writer_holds_guard", file="cached.rs", props=["C07", "C18"], timeout=900,
          encodes=["tinylfu_cached::cache::cached::CacheD::{put_or_update,put_with_weight}", "Store::{update,is_present}"]),
+    dict(name="c18_worker_evicts_ttl_key_through_real_hook", tier="off", file="cached.rs", props=["C18", "C05"], timeout=900,
+         encodes=["tinylfu_cached::cache::command::command_executor::CommandExecutor::spin (worker closure + real delete hook)", "AdmissionPolicy::{maybe_add,create_space}", "CacheWeight::delete", "Store::delete"]),
+    dict(name="c18_sweeper_evicts_expired_key_through_real_hook", file="cached.rs", props=["C18", "C10"], timeout=900,
+         encodes=["tinylfu_cached::cache::expiration::TTLTicker::spin (sweeper closure)", "CacheD::ttl_ticker (real evict hook)", "AdmissionPolicy::delete_with_hook", "CacheWeight::delete", "Store::delete"]),
+    dict(name="c05_f3_put_applied_while_key_is_held", file="cached.rs", props=["C05"], timeout=900,
+         encodes=["tinylfu_cached::cache::command::command_executor::CommandExecutor::{send,spin (worker closure: Put arm),put}", "AdmissionPolicy::maybe_add", "CacheWeight::add", "Store::put"]),
     dict(name="c05_put_of_expired_unswept_key", file="cached.rs", props=["C05", "C07"], timeout=900,
          encodes=["tinylfu_cached::cache::cached::CacheD::{put_with_weight,put_with_weight_and_ttl}", "Store::is_present", "CommandExecutor::{send,spin (worker closure: Put, PutWithTTL arms)}", "AdmissionPolicy::maybe_add", "Store::{put,put_with_ttl}"]),
     dict(name="c05_put_of_soft_deleted_key", file="cached.rs", props=["C05", "C07"], timeout=900,
